@@ -444,6 +444,15 @@ func (g *G) genPackageBody(exported bool, nStructs, nFuncs int) {
 		f := g.genFuncSig(pure)
 		if exported {
 			f.Name = "F" + f.Name[1:]
+		} else if g.r.Chance(1, 5) {
+			// a function may share its name with a struct field (separate name spaces in Go)
+			if n := fmt.Sprintf("F%d", g.r.Intn(48)); !g.fieldFuncs[n] {
+				if g.fieldFuncs == nil {
+					g.fieldFuncs = map[string]bool{}
+				}
+				g.fieldFuncs[n] = true
+				f.Name = n
+			}
 		}
 		if g.r.Chance(1, 6) && len(f.Params) > 0 && !f.Variadic {
 			f.Params[0].T = TInt
